@@ -13,6 +13,7 @@
 #include "concurrent_queue.h"
 #include "cpu.h"
 #include "epoch.h"
+#include "verif_hooks.h"
 
 namespace yakushima {
 
@@ -67,7 +68,9 @@ public:
         }
 
         // for container
+        YK_VPA(YK_RMW, YK_C_GCQ, &node_container_, 0);
         while (!node_container_.empty()) {
+            YK_VPA(YK_RMW, YK_C_GCQ, &node_container_, 0);
             std::tuple<Epoch, base_node*> elem;
             if (!node_container_.try_pop(elem)) { continue; }
             if (std::get<gc_epoch_index>(elem) >= gc_epoch) {
@@ -92,7 +95,9 @@ public:
             std::get<gc_target_index>(cache_value_container_) = nullptr;
         }
 
+        YK_VPA(YK_RMW, YK_C_GCQ, &value_container_, 0);
         while (!value_container_.empty()) {
+            YK_VPA(YK_RMW, YK_C_GCQ, &value_container_, 0);
             std::tuple<Epoch, void*, std::size_t, std::align_val_t> elem;
             if (!value_container_.try_pop(elem)) { continue; }
             if (std::get<gc_epoch_index>(elem) >= gc_epoch) {
@@ -106,19 +111,25 @@ public:
     }
 
     static Epoch get_gc_epoch() {
+        YK_VP(YK_LOAD, YK_C_EPOCH, &gc_epoch_);
         return gc_epoch_.load(std::memory_order_acquire);
     }
 
     void push_node_container(std::tuple<Epoch, base_node*> elem) {
+        YK_EVENT(YK_EV_RETIRE_NODE, std::get<1>(elem), std::get<0>(elem), 0);
+        YK_VPA(YK_RMW, YK_C_GCQ, &node_container_, 0);
         node_container_.push(elem);
     }
 
     void push_value_container(
             std::tuple<Epoch, void*, std::size_t, std::align_val_t> elem) {
+        YK_EVENT(YK_EV_RETIRE_VALUE, std::get<1>(elem), std::get<0>(elem), std::get<2>(elem));
+        YK_VPA(YK_RMW, YK_C_GCQ, &value_container_, 0);
         value_container_.push(elem);
     }
 
     static void set_gc_epoch(const Epoch epoch) {
+        YK_VP(YK_STORE, YK_C_EPOCH, &gc_epoch_);
         gc_epoch_.store(epoch, std::memory_order_release);
     }
 
